@@ -20,7 +20,7 @@ import z3
 from pyvc import frontend
 from pyvc.builtins_model import default_builtins
 from pyvc.graphdom import Heap, NdModel, TensorModel
-from pyvc.interp import Config, Ctx, Interp, LoopSpec, SRef, SSeq, SymRaise, Unsupported, explore, to_z3
+from pyvc.interp import Config, Ctx, Interp, LoopSpec, Opaque, SRef, SSeq, SymRaise, Unsupported, explore, to_z3
 
 DG = "mygrad._utils.duplicating_graph"
 TB = "mygrad.tensor_base"
@@ -94,9 +94,13 @@ def reroute_harness(ctx: Ctx):
     class TM(TensorModel):
         def getattr(self, interp_, o, name):
             if name == "_ops":
-                # only source._ops is read
-                ctx.oblige("C04.reroute.reads_only_source_ops", o.ref == src.ref, function=f"{DG}:reroute_ops_through")
-                return SSeq(m, lambda i: WeakRefVal(z3.Select(OPS, to_z3(i)), z3.Select(ALIVE, to_z3(i))), "set", "source._ops")
+                # the consumer set that is iterated is the source's; the consumer set of any other tensor is an arbitrary set (reading it is pure,
+                # what the function may DO is fixed by the `vars` / `len` / `tensors_untouched` clauses)
+                if interp_.truth(o.ref == src.ref):
+                    return SSeq(m, lambda i: WeakRefVal(z3.Select(OPS, to_z3(i)), z3.Select(ALIVE, to_z3(i))), "set", "source._ops")
+                n_o = ctx.fresh("n_ops_other", "int")
+                ctx.assume(n_o >= 0)
+                return SSeq(n_o, lambda i: Opaque("a consumer of another tensor"), "set", "other._ops")
             return super().getattr(interp_, o, name)
 
     cfg.ref_models["Tensor"] = TM(heap, TensorCls)
